@@ -19,7 +19,7 @@
    `extend schema` naming an operation whose root type is already defined is refused (C12_schema_operation_redefinition_refused);
    an operation extended a second time is reported by the extension validator (schema_ext_ops_twice). *)
 From Coq Require Import ZArith List String Bool.
-From TV Require Import Py.Prelude Model.Schema Model.ImplValidate Model.SchemaBuild Model.SpecSchema Proofs.SchemaProofs Proofs.SchemaInterfaces Proofs.SchemaExtensions
+From TV Require Import Py.Prelude Model.Schema Model.ImplValidate Model.SchemaBuild Model.SpecSchema Proofs.SchemaProofs Proofs.SchemaInterfaces Proofs.SchemaExtensions Proofs.SchemaRoots
      Gen.Wiring_gen Proofs.Wiring.
 Import ListNotations.
 Open Scope string_scope.
@@ -64,6 +64,25 @@ Theorem C12_schema_operation_redefinition_refused s g0 ops dirs k v :
   builds s = false.
 Proof. exact (schema_operation_redefinition_refused s g0 ops dirs k v). Qed.
 
+(* root operation types are checked on the MERGED schema: whichever definition or extension named them, an
+   undefined query root, or a mutation / subscription root that is not the default name and is undefined,
+   never yields an engine; in particular when the last extension is `extend schema { mutation: V }`, V undefined *)
+Theorem C12_undefined_root_after_merge_refused s g0 :
+  initial s = inl g0 ->
+  let g := fold_left apply_ext (s_exts s) g0 in
+  (defined g (g_query g) = false \/
+   (g_mutation g <> "Mutation"%string /\ defined g (g_mutation g) = false) \/
+   (g_subscription g <> "Subscription"%string /\ defined g (g_subscription g) = false)) ->
+  builds s = false.
+Proof. exact (undefined_root_after_merge_refused s g0). Qed.
+
+Theorem C12_extension_naming_undefined_mutation_root_refused s g0 front ops dirs v :
+  initial s = inl g0 -> s_exts s = (front ++ [XSchema ops dirs])%list ->
+  op_lookup "mutation" (g_mutation (fold_left apply_ext front g0)) ops = v -> v <> "Mutation"%string ->
+  defined (fold_left apply_ext (s_exts s) g0) v = false ->
+  builds s = false.
+Proof. exact (last_extension_undefined_mutation_root_refused s g0 front ops dirs v). Qed.
+
 (* tie to the current source (regenerated on every run): the validator lists and the order of the
    steps of GraphQLSchema.bake are the ones the build model transcribes *)
 Theorem C12_source_runs_the_modelled_validators :
@@ -93,3 +112,5 @@ Print Assumptions C12_validator_reports_unhonoured_interfaces.
 Print Assumptions C12_invalid_extension_rejected.
 Print Assumptions C12_extension_validators_report_invalid_extensions.
 Print Assumptions C12_schema_operation_redefinition_refused.
+Print Assumptions C12_undefined_root_after_merge_refused.
+Print Assumptions C12_extension_naming_undefined_mutation_root_refused.
